@@ -241,7 +241,7 @@ Definition has_ack (fs : list oframe) : bool :=
 
 (** One label.  Client view of "started": a start / subscribe frame with a decodable payload sent
     after an ack had been received. *)
-Definition obs_events (soft : bool) (p : proto) (ls : list label) (k : nat) (l : label) (acked : bool)
+Definition obs_events (soft late : bool) (p : proto) (ls : list label) (k : nat) (l : label) (acked : bool)
            (ops : list nat) (before : list nat) (o : obs) (w : list oframe) (a : attr) (reg_clean : bool)
   : attr * list ev :=
   let facts := map ev_of_fact (o_facts o) in
@@ -265,8 +265,8 @@ Definition obs_events (soft : bool) (p : proto) (ls : list label) (k : nat) (l :
                       | DSubFail => if existsb (fun x => match x with FSubFail _ => true | _ => false end) (o_facts o)
                                     then {| a_err := a_err a ++ [(k, id)]; a_cmp := a_cmp a; a_sub := a_sub a |} else a
                       | DQuery | DMutation =>
-                          (* while the connection is going down an executed query may be answered with errors only *)
-                          if soft then {| a_err := a_err a ++ [(k, id)]; a_cmp := a_cmp a; a_sub := a_sub a |} else a
+                          (* a query dispatched after closing has begun is executed with a cancelled context: errors only *)
+                          if late then {| a_err := a_err a ++ [(k, id)]; a_cmp := a_cmp a; a_sub := a_sub a |} else a
                       | _ => a
                       end in
             {| a_err := a_err a0; a_cmp := a_cmp a0;
@@ -331,7 +331,7 @@ Definition has_init_ok (fs : list fact) : bool :=
   existsb (fun x => match x with FInit true => true | _ => false end) fs.
 
 (** [m]: the labels from m on were performed while the connection was going down ([m >= length ls]: none) *)
-Fixpoint obs_trace (m : nat) (pool : list oframe) (p : proto) (ls : list label) (log : list litem) (reg_clean : bool)
+Fixpoint obs_trace (bpos m : nat) (pool : list oframe) (p : proto) (ls : list label) (log : list litem) (reg_clean : bool)
          (k : nat) (rest : list label) (os : list obs) (acked : bool) (ops before : list nat) (a : attr)
   : list ev :=
   match rest, os with
@@ -339,8 +339,10 @@ Fixpoint obs_trace (m : nat) (pool : list oframe) (p : proto) (ls : list label) 
       let soft := Nat.leb m k in
       let pool0 := if Nat.eqb k m then frames_from m None log else pool in
       let (w, pool') := if soft then caused p l o pool0 else (window k None log, pool0) in
-      let (a', es) := obs_events soft p ls k l acked ops before o w a reg_clean in
-      es ++ obs_trace m pool' p ls log reg_clean (S k) rest' os' (acked || has_ack w || has_init_ok (o_facts o)) (ops ++ sub_ops (o_facts o))
+      let (a', es0) := obs_events soft (Nat.ltb m k) p ls k l acked ops before o w a reg_clean in
+      (* closing begins (the handler's context is cancelled) while label bpos is performed *)
+      let es := if Nat.eqb k bpos && negb (match l with LEnd _ => true | _ => false end) then es0 ++ [VBeginClose 0] else es0 in
+      es ++ obs_trace bpos m pool' p ls log reg_clean (S k) rest' os' (acked || has_ack w || has_init_ok (o_facts o)) (ops ++ sub_ops (o_facts o))
                       (match o_stops o with Some c => c | None => before end) a'
   | _, _ => []
   end.
@@ -390,10 +392,7 @@ Definition split_last {A} (l : list A) : option (list A * A) :=
 
 (** [n] = number of labels performed while the connection was being served normally; what the model
     sends for the later ones (performed while the connection was going down) may be cut short *)
-(** in the going-down part a result the model expects may have become an errors-only result (the handler
-    context is cancelled when closing begins: the operation is executed, its resolvers are not run) *)
-Definition soft_eqb (ob md : sframe) : bool :=
-  sframe_eqb ob md || match ob, md with SData i CErr, SData j (CRes _) => N.eqb i j | _, _ => false end.
+Definition soft_eqb (ob md : sframe) : bool := sframe_eqb ob md.
 Fixpoint soft_prefix (ob md : list sframe) : bool :=
   match ob, md with
   | [], _ => true
@@ -501,7 +500,11 @@ Definition check (c : sexp) : sexp :=
                        end in
               let reg_clean := Z.leb reg 0 in
               let m := if Nat.ltb n (List.length ls) then Nat.pred n else List.length ls in
-              let t := obs_trace m [] p ls log reg_clean 0 ls os false [] [] {| a_err := []; a_cmp := []; a_sub := [] |} in
+              (* the label during which closing began: the frame that makes the server close (the last one performed
+                 normally), or the gated frame during whose handler call the application closed the connection *)
+              let bpos := if Nat.ltb n (List.length ls) then (if is_sym "gate" ms || is_sym "gatectx" ms then n else Nat.pred n)
+                          else List.length ls in
+              let t := obs_trace bpos m [] p ls log reg_clean 0 ls os false [] [] {| a_err := []; a_cmp := []; a_sub := [] |} in
               if flood then
                 (* a client that never reads: only the clean-up clauses are observable *)
                 let stops := match split_last os with Some (_, {| o_stops := Some c |}) => c | _ => [] end in
@@ -518,7 +521,7 @@ Definition check (c : sexp) : sexp :=
                 v_oracle_fail "close-not-completed" []
               else if existsb (is_sym "handler-context-not-cancelled") stall then v_oracle_fail "close-not-completed" [SSym "not-cancelled"]
               else
-              let kpos := List.length (obs_trace m [] p ls log reg_clean 0 (firstn m ls) (firstn m os) false [] [] {| a_err := []; a_cmp := []; a_sub := [] |}) in
+              let kpos := List.length (obs_trace bpos m [] p ls log reg_clean 0 (firstn m ls) (firstn m os) false [] [] {| a_err := []; a_cmp := []; a_sub := [] |}) in
               if negb (chk_ack_first p (observed_frames log)) then v_oracle_fail "ack-not-first" [] else
               match (if Nat.eqb n (List.length ls) then spec_verdict p t else spec_verdict_from kpos p t) with
               | Some key => v_oracle_fail key []
